@@ -99,13 +99,35 @@ func (enc *Encoder) marshalUint(i uint64) {
 }
 
 func (enc *Encoder) marshalFloat32(f float32) {
+	if enc.marshalSpecialFloat(float64(f)) {
+		return
+	}
 	enc.tmp = strconv.AppendFloat(enc.tmp[:0], float64(f), 'g', -1, 32)
 	enc.w.Write(enc.tmp)
 }
 
 func (enc *Encoder) marshalFloat64(f float64) {
+	if enc.marshalSpecialFloat(f) {
+		return
+	}
 	enc.tmp = strconv.AppendFloat(enc.tmp[:0], f, 'g', -1, 64)
 	enc.w.Write(enc.tmp)
+}
+
+// marshalSpecialFloat writes an infinity or NaN the way the text format
+// spells them (strconv's "+Inf" and "NaN" are not Cap'n Proto values).
+func (enc *Encoder) marshalSpecialFloat(f float64) bool {
+	switch {
+	case math.IsNaN(f):
+		enc.w.WriteString("nan")
+	case math.IsInf(f, 1):
+		enc.w.WriteString("inf")
+	case math.IsInf(f, -1):
+		enc.w.WriteString("-inf")
+	default:
+		return false
+	}
+	return true
 }
 
 func (enc *Encoder) marshalText(t []byte) {
